@@ -205,3 +205,16 @@ Example F5_fixed_witness :
   let h := [MReq 1 (Some (secs 3600)) fr 0; MAdv (secs 100); MReq 1 (Some (secs 5)) {| r_id := 8; r_exp := Some 9000 |} 0] in
   forall t v, ~ In (MHit t (Some (secs 5)) v) (runm Mem fx_all MIntro (secs 1000) [] h).
 Proof. intros fr h t v Hin. vm_compute in Hin. destruct Hin as [H|[H|[]]]; discriminate H. Qed.
+
+(** with the repair of C10-F5 (8647e06) every mechanism's key contains the ttl *)
+Lemma key_has_ttl_fixed f m : fx5 f = true -> key_has_ttl f m = true.
+Proof. intro H. unfold key_has_ttl. rewrite H. destruct m; reflexivity. Qed.
+
+Theorem hit_age_within_ttl_in_force_fixed : forall b f m,
+  fx5 f = true ->
+  forall h now0 t c v,
+    wf_mhist max_delay h ->
+    In (MHit t (Some c) v) (runm b f m now0 [] h) ->
+    exists tc ts ttl,
+      In (MMiss tc ts (Some c) v (Some ttl)) (runm b f m now0 [] h) /\ ttl <= c /\ ts <= t /\ t <= ts + ttl.
+Proof. intros b f m Hf. apply hit_age_within_ttl_in_force. apply key_has_ttl_fixed. exact Hf. Qed.
